@@ -1,11 +1,17 @@
 //verif:dest internal/clients/connectors/zz_verif_c02c.go
 //verif:replace@C02c path/filepath.Glob = c02Glob
+//verif:replace@C02c os.Lstat = c02Lstat
+//verif:replace@C02c os.Stat = c02Lstat
 //verif:replace@C02c (*github.com/mimecast/dtail/internal/user/server.User).HasFilePermission = c02Perm
 
 package connectors
 
 import (
 	"context"
+	"errors"
+	iofs "io/fs"
+	"os"
+	"path/filepath"
 	"strings"
 	"time"
 
@@ -18,18 +24,43 @@ import (
 	"github.com/mimecast/dtail/internal/verifrt"
 )
 
+// the file system of the session: the files provided by the harness; a pattern is
+// matched against their names with the real filepath.Match
 func c02Glob(pattern string) ([]string, error) {
-	if _, ok := fs.VerifFiles[pattern]; ok {
-		return []string{pattern}, nil
+	var names []string
+	for i := 0; i < len(fs.VerifFiles); i++ {
+		names = append(names, "/f"+string(rune('0'+i)))
 	}
-	if pattern == "/f*" { // the glob of the one-command sessions: every file of the session
-		var all []string
-		for i := 0; i < len(fs.VerifFiles); i++ {
-			all = append(all, "/f"+string(rune('0'+i)))
+	var out []string
+	for _, n := range names {
+		if _, ok := fs.VerifFiles[n]; !ok {
+			continue
 		}
-		return all, nil
+		ok, err := filepath.Match(pattern, n)
+		if err != nil {
+			return nil, err
+		}
+		if ok {
+			out = append(out, n)
+		}
 	}
-	return nil, nil
+	return out, nil
+}
+
+type c02Info struct{ name string }
+
+func (i c02Info) Name() string        { return i.name }
+func (i c02Info) Size() int64         { return 0 }
+func (i c02Info) Mode() iofs.FileMode { return 0o644 }
+func (i c02Info) ModTime() time.Time  { return time.Time{} }
+func (i c02Info) IsDir() bool         { return false }
+func (i c02Info) Sys() interface{}    { return nil }
+
+func c02Lstat(name string) (os.FileInfo, error) {
+	if _, ok := fs.VerifFiles[name]; ok {
+		return c02Info{name}, nil
+	}
+	return nil, errors.New("lstat " + name + ": no such file or directory")
 }
 func c02Perm(u *user.User, filePath, permissionType string) bool { return true }
 
@@ -87,9 +118,12 @@ func VerifC02cSession(nfiles, nlines, cats int) {
 		commands = append(commands, "cat:plain=true:quiet=true:serverless=true "+path+" regex:noop ")
 	}
 	// the files may also be named by one glob in a single command (dcat "/f*")
-	if nfiles > 1 && verifrt.Choose("one-glob-command", 2) == 1 {
-		commands = []string{"cat:plain=true:quiet=true:serverless=true /f* regex:noop "}
-		verifrt.Reach("glob-command")
+	if nfiles > 1 {
+		if g := verifrt.Choose("one-glob-command", 3); g > 0 {
+			glob := []string{"", "/f?", "/[e-g][0-9]*"}[g]
+			commands = []string{"cat:plain=true:quiet=true:serverless=true " + glob + " regex:noop "}
+			verifrt.Reach("glob-command")
+		}
 	}
 	// the client may send the commands of the session with a gap between them
 	gap := []time.Duration{0, 300 * time.Millisecond}[verifrt.Choose("command-gap", 2)]
